@@ -296,6 +296,7 @@ func (p *CFListChannelPayload) UnmarshalBinary(uplink bool, data []byte) error {
 		return errors.New("lorawan: length must be a multiple of 3")
 	}
 
+	p.Channels = [5]uint32{}
 	for i := 0; i < len(data)/3; i++ {
 		p.Channels[i] = binary.LittleEndian.Uint32([]byte{
 			data[i*3],
@@ -343,6 +344,7 @@ func (p *CFListChannelMaskPayload) UnmarshalBinary(uplink bool, data []byte) err
 
 	var chMaskNil ChMask
 	var pending []ChMask
+	p.ChannelMasks = nil
 
 	for i := 0; i < len(data)/2; i++ {
 		var cm ChMask
@@ -439,6 +441,7 @@ func (p *JoinAcceptPayload) UnmarshalBinary(uplink bool, data []byte) error {
 	}
 	p.RXDelay = uint8(data[11])
 
+	p.CFList = nil
 	if l == 28 {
 		p.CFList = &CFList{}
 		if err := p.CFList.UnmarshalBinary(data[12:]); err != nil {
